@@ -23,8 +23,13 @@ import (
 // identityBytes returns a symbolic keys-and-cert encoding with an Ed25519 (type 7) key certificate, the
 // given crypto type and the given public signing key at the end of the key block.
 func identityBytes(cryT int, pub []byte) []byte {
-	b := nd.Bytes(391)
-	pin(b, 384, 5, 0, 4, 0, 7, byte(cryT>>8), byte(cryT))
+	return identityBytesX(cryT, pub, 0)
+}
+
+// identityBytesX: as identityBytes with `excess` extra (symbolic) payload bytes in the key certificate.
+func identityBytesX(cryT int, pub []byte, excess int) []byte {
+	b := nd.Bytes(391 + excess)
+	pin(b, 384, 5, 0, byte(4+excess), 0, 7, byte(cryT>>8), byte(cryT))
 	copy(b[352:384], pub)
 	return b
 }
@@ -41,7 +46,7 @@ func smallOptions() map[string]string {
 func tinyOptions() map[string]string {
 	m := map[string]string{}
 	if nd.Bool() {
-		m[nd.String(1)] = nd.String(nd.IntRange(0, 1))
+		m[nd.String(nd.IntRange(0, 1))] = nd.String(nd.IntRange(0, 1)) // the empty key is a legal key
 	}
 	return m
 }
